@@ -131,6 +131,23 @@ func callRtypeMethod(fr *frame, m *rtypeMethod, args []value) value {
 		return ""
 	case "Comparable":
 		return types.Comparable(rt.t)
+	case "Implements", "AssignableTo", "ConvertibleTo":
+		oi, _ := args[1].(iface)
+		ot, ok := oi.v.(rtype)
+		if !ok {
+			panic(targetPanic{iface{types_String, "reflect: nil type passed to Type." + m.name}})
+		}
+		switch m.name {
+		case "Implements":
+			u, ok := ot.t.Underlying().(*types.Interface)
+			if !ok {
+				panic(targetPanic{iface{types_String, "reflect: non-interface type passed to Type.Implements"}})
+			}
+			return types.Implements(rt.t, u)
+		case "AssignableTo":
+			return types.AssignableTo(rt.t, ot.t)
+		}
+		return types.ConvertibleTo(rt.t, ot.t)
 	case "NumField":
 		st, ok := rt.t.Underlying().(*types.Struct)
 		if !ok {
